@@ -25,7 +25,7 @@ inductive Outcome (C : Cfg α) (Bad : Nat → Prop) (st : LS α) (a : Nat) (rest
       (hrep : st'.rep = { st.rep with failed := st.rep.failed ++ [(a, e)] })
       (hver : st'.verified = if C.tree then a :: st.verified else st.verified)
       (htodo : st'.todo = pushDeps C a st'.verified rest)
-      (hwhy : Raises C e)
+      (hwhy : Raises C a e)
   | noData
       (hrep : st'.rep = { st.rep with noData := a :: st.rep.noData })
       (hver : st'.verified = st.verified)
@@ -144,7 +144,7 @@ theorem step_nil (st : LS α) (ht : st.todo = []) : step C st = st := by
 structure BInv (C : Cfg α) (f : Nat → (Nat → α) → α) (Bad : Nat → Prop) (st : LS α) : Prop where
   good : Good C f Bad st.vs
   blame : ∀ x o r, (x, o, r) ∈ st.rep.mismatch → Bad x
-  why : ∀ x e, (x, e) ∈ st.rep.failed → Raises C e
+  why : ∀ x e, (x, e) ∈ st.rep.failed → Raises C x e
 
 theorem BInv.next (h : Hyp C f Bad) {st : LS α} (hi : BInv C f Bad st) : BInv C f Bad (step C st) := by
   cases ht : st.todo with
@@ -160,7 +160,7 @@ theorem BInv.next (h : Hyp C f Bad) {st : LS α} (hi : BInv C f Bad st) : BInv C
         rcases List.mem_append.1 hx with hx | hx
         · exact hi.why x e' hx
         · simp only [List.mem_singleton, Prod.mk.injEq] at hx
-          rw [hx.2]; exact hwhy
+          rw [hx.1, hx.2]; exact hwhy
     | noData hrep hver htodo =>
       refine ⟨hg, ?_, ?_⟩ <;> rw [hrep]
       · exact hi.blame
